@@ -449,3 +449,61 @@ def replay_h_prealloc(sel_f, sel_a, swap, idx, size, k0, part):
         return False, "prediction holds"
     finally:
         shutil.rmtree(d, ignore_errors=True)
+
+
+# ------------------------------------------------------------------ categorical columns: each its own order flag ---
+def _cat_flags(o1, o2, same_size):
+    import pandas as pd
+    import fastparquet.writer as writer
+    c1 = pd.Categorical(["a", "b"], categories=["a", "b", "c"], ordered=o1)
+    c2 = pd.Categorical(["x", "y"], categories=["x", "y", "z"] if same_size else ["x", "y"], ordered=o2)
+    df = pd.DataFrame({"c1": c1, "c2": c2})
+    fmd = writer.make_metadata(df)
+    cols = [parquet_thrift.ColumnChunk(meta_data=parquet_thrift.ColumnMetaData(
+        type=T.BYTE_ARRAY, path_in_schema=[c], num_values=2, statistics=parquet_thrift.Statistics(null_count=0)))
+        for c in ("c1", "c2")]
+    fmd.row_groups = [parquet_thrift.RowGroup(columns=cols, num_rows=2, total_byte_size=1)]
+    fmd.num_rows = 2
+    pf = object.__new__(api.ParquetFile)
+    pf.__setstate__({"fn": "x", "open": None, "fmd": fmd, "pandas_nulls": True, "_base_dtype": None, "tz": None})
+    out, views = pf.pre_allocate(2, ["c1", "c2"], None, None)
+    return (bool(out["c1"].dtype.ordered), bool(out["c2"].dtype.ordered)), (out["c1"].dtype is out["c2"].dtype)
+
+
+def h_cat_order_flags(o1: bool, o2: bool, same_size: bool) -> bool:
+    """
+    pre: True
+    post: __return__
+    """
+    # two categorical columns in one frame, with the same or different numbers of labels: the frame allocated for a
+    # read gives each column that column's order flag (the real dataframe.empty and
+    # pandas run untraced on concrete input)
+    o1, o2, same_size = bool(o1), bool(o2), bool(same_size)
+    try:
+        from crosshair.tracers import NoTracing
+    except ImportError:
+        flags, shared = _cat_flags(o1, o2, same_size)
+    else:
+        with NoTracing():
+            flags, shared = _cat_flags(o1, o2, same_size)
+    return flags == (o1, o2)
+
+
+def replay_h_cat_order_flags(o1, o2, same_size):
+    import shutil, tempfile
+    import pandas as pd
+    import fastparquet
+    d = tempfile.mkdtemp(prefix="c01-")
+    try:
+        fn = os.path.join(d, "t.parq")
+        c1 = pd.Categorical(["a", "b"], categories=["a", "b", "c"], ordered=o1)
+        c2 = pd.Categorical(["x", "y"], categories=["x", "y", "z"] if same_size else ["x", "y"], ordered=o2)
+        fastparquet.write(fn, pd.DataFrame({"c1": c1, "c2": c2}))
+        out = fastparquet.ParquetFile(fn).to_pandas()
+        got = (bool(out["c1"].dtype.ordered), bool(out["c2"].dtype.ordered))
+        if got != (o1, o2) or list(out["c1"]) != ["a", "b"] or list(out["c2"]) != ["x", "y"]:
+            return True, "categorical columns written with ordered=%r / %r come back with ordered=%r / %r" % (
+                o1, o2, got[0], got[1])
+        return False, "order flags kept"
+    finally:
+        shutil.rmtree(d, ignore_errors=True)
